@@ -1081,6 +1081,10 @@ class Consumer(object):
         # Check for outstanding request.
         if self._request_d:
             log.debug("_do_fetch: Outstanding request: %r", self._request_d)
+            if self._retry_call is not None and not self._retry_call.active():
+                # The delayed call that brought us here has fired: forget it, or
+                # _retry_fetch() would never schedule another one.
+                self._retry_call = None
             return
 
         # Cleanup our _retry_call, if we have one
